@@ -8,27 +8,37 @@ from vlib import core
 TRUST = ("Lean 4.33 kernel; axioms at most propext/Classical.choice/Quot.sound (audited per run by #audit_module); "
          "hand-written model Model/Kernels.lean tied to the C++ by the correspondence harness (differential, generator-bounded); ")
 MANIFEST = dict(
-  text=("Theorems (Props/C05.lean) about the executable kernel model, for every kernel expression (linear, polynomial, monomial, "
-        "Gaussian, ARD, normalised, scaled, weighted sum, product, sub-range; any nesting depth), all points and all parameters "
-        "over an arbitrary ordered field: symmetry k(x,z)=k(z,x) (structural induction); block evaluation (stateless and stateful "
-        "paths, incl. the repaired stateless path of NormalizedKernel) = matrix of single evaluations; blockwise Gram assembly "
-        "(calculateRegularizedKernelMatrix / calculateMixedKernelMatrix) has entry (i,j) = k(x_i,x_j) (+ regulariser on the "
-        "diagonal) for EVERY batch partition, hence partition independence; normalised kernels have k(x,x)=1 when the base is "
-        "positive on the diagonal; featureDistanceSqr = k(x,x)-2k(x,z)+k(z,z); positive semi-definiteness as a quadratic-form "
-        "statement (sum_ij c_i c_j k(x_i,x_j) >= 0 for all finite point lists and coefficients) for linear, polynomial, monomial "
-        "kernels and closed under scaling, weighted sums, products (Schur), normalisation and sub-ranges, with PSD-ness of "
-        "Gaussian/ARD as an explicit hypothesis. The model is tied to the real classes by an exact (Rat) / bit-for-bit (Float) "
-        "line-by-line correspondence of single, stateful-block, stateless-block evaluation, featureDistanceSqr and Gram matrices "
-        "over several batch partitions, for dense and sparse inputs, under ASan/UBSan, plus an in-harness property oracle."),
-  note=TRUST + "floating-point rounding is outside the theorems (they are exact-arithmetic statements; 'no negative eigenvalues beyond "
-       "rounding' is checked numerically by the harness oracle only); Gaussian/ARD PSD-ness is a hypothesis, not proved; derivative "
-       "clause: see Props/C05.lean header for what is proved; ModelKernel/PointSetKernel/MultiTaskKernel are not modelled.",
-  technique="Lean 4 proofs by structural induction over a kernel expression language + differential correspondence with the C++ (exact / bit mode, ASan/UBSan)",
+  text=("Theorems (Props/C05.lean) about the executable kernel model Model/Kernels.lean, for every kernel expression (linear, polynomial, "
+        "monomial, Gaussian, ARD, normalised, scaled, weighted sum, product, sub-range; any nesting depth), all points and all "
+        "parameters, over an arbitrary field with exp/sqrt arbitrary functions: symmetry k(x,z)=k(z,x) (structural induction); block "
+        "evaluation (stateless and stateful paths, the stateless path of NormalizedKernel and DiscreteKernel's block path as repaired) "
+        "= matrix of single evaluations; blockwise Gram assembly (calculateRegularizedKernelMatrix / calculateMixedKernelMatrix) has "
+        "entry (i,j) = k(x_i,x_j) (+ regulariser on the diagonal) for EVERY batch partition incl. empty batches, hence partition "
+        "independence and symmetry of the assembled matrix; normalised kernels and every kernel that sets IS_NORMALIZED have k(x,x)=1 "
+        "when the normalised bases are positive on the diagonal; featureDistanceSqr = k(x,x)-2k(x,z)+k(z,z) (incl. the IS_NORMALIZED "
+        "shortcut and LinearKernel's override). Over the reals (Mathlib Matrix.PosSemidef): Gram matrices of linear, polynomial "
+        "(offset>=0), monomial kernels are PSD, PSD-ness is closed under non-negative scaling, weighted sums, products (Schur), "
+        "normalisation and sub-ranges, hence every kernel expression with admissible parameters is PSD and every assembled regularised "
+        "Gram matrix is PosSemidef, with PSD-ness of Gaussian/ARD leaves as an explicit hypothesis. Derivatives (HasDerivAt): the "
+        "model of weightedParameterDerivative / weightedInputDerivative of the Gaussian, polynomial and linear kernels is the true "
+        "derivative of the weighted sum of kernel values for all batches and coefficients. The model is tied to the real classes by an "
+        "exact (Rat) / bit-for-bit (Float) line-by-line correspondence of single, stateful-block, stateless-block evaluation, "
+        "featureDistanceSqr, Gram matrices over many batch partitions (thorough: all ordered partitions of up to 12 points) and the "
+        "derivative calls, for dense and sparse inputs, under ASan/UBSan, plus an in-harness property oracle (symmetry, block=single, "
+        "unit diagonal, smallest eigenvalue, finite-difference derivatives of every composed kernel)."),
+  note=TRUST + "floating-point rounding is outside the theorems (exact-arithmetic statements; 'no negative eigenvalues beyond rounding' "
+       "is checked numerically by the harness oracle only); Gaussian/ARD PSD-ness is a hypothesis, not proved; derivative theorems cover "
+       "Gaussian/polynomial/linear only - derivatives of ARD, normalised, scaled, weighted-sum, sub-range, monomial kernels are exercised by the "
+       "finite-difference oracle only (toleranced 2e-5), the Gaussian derivative correspondence is bit-exact on 1x1 blocks only; "
+       "ModelKernel/PointSetKernel/MultiTaskKernel and the unconstrained parameter encodings are not modelled; ARD, normalised and sub-range kernels "
+       "cannot be instantiated for sparse inputs in Shark, so the sparse runs cover the other kernels. The check reports three genuine defects on "
+       "the unpatched tree (findings_proposed/C05.md: normalized-stateless-block, discrete-block-ignores-indices, monomial-degree1-input-derivative).",
+  technique="Lean 4 proofs by structural induction over a kernel expression language + Mathlib PosSemidef/HasDerivAt + differential correspondence with the C++ (exact / bit mode, ASan/UBSan)",
   design="§6 C05")
 
 FINISH = dict(level="proof",
               rule="a case = kernel expression (random composition, depth <= 3, dyadic parameters) + integer points + ops "
-                   "(single / block / sblock / fdist / gram over batch partitions / mixed); non-trivial = composed kernel "
+                   "(single / block / sblock / fdist / gram over batch partitions / mixed / pderiv / ideriv / dcheck); non-trivial = composed kernel "
                    "(depth >= 1) or a Gram op with >= 2 batches; distinct = distinct op text")
 
 LAKE_TARGETS = ["SharkVerif.Props.C05", "drv_c05"]
@@ -206,8 +216,36 @@ def gen_case(ctx, r, maxn, all_partitions=False):
     n1 = r.range(1, n - 1)
     p1, p2 = rand_partition(r, n1), rand_partition(r, n - n1)
     ops.append(f"mixed {len(p1)} " + " ".join(map(str, p1 + p2)))
+    # numerical derivative oracle on the real code (finite differences); last, because it resets parameters
+    a = r.below(n); b = r.range(a + 1, min(n, a + 3)); c = r.below(n); d = r.range(c + 1, min(n, c + 3))
+    ops.append(f"dcheck {a} {b} {c} {d} " + " ".join(str(r.range(-2, 2)) for _ in range((b - a) * (d - c))))
     info = dict(info, n=n, dim=dim, parts=len(parts), exact_case=exact_ok(info))
     return ops, info
+
+
+def gen_deriv_case(r, maxn):
+    """derivative correspondence: linear / polynomial kernels on arbitrary blocks (exact), Gaussian on 1x1 blocks (bit mode)"""
+    dim = r.choice([1, 2, 3, 4]); n = r.range(2, maxn)
+    x = r.below(3)
+    if x == 0:
+        toks, exact = ["lin"], True
+    elif x == 1:
+        toks, exact = ["poly", str(r.choice([1, 2, 2, 3, 4])), dy(r.choice([Fraction(0), Fraction(0), Fraction(1), Fraction(1, 2), Fraction(2)]))], True
+    else:
+        toks, exact = ["gauss", dy(r.choice([Fraction(1, 4), Fraction(1, 2), Fraction(1), Fraction(2)]))], False
+    pts = gen_points(r, n, dim, False)
+    ops = ["kern " + " ".join(toks), f"pts {n} {dim} " + " ".join(str(v) for p in pts for v in p)]
+    for _ in range(r.range(2, 4)):
+        if toks[0] == "gauss":
+            a = r.below(n); b = a + 1; c = r.below(n); d = c + 1
+        else:
+            a = r.below(n); b = r.range(a + 1, n); c = r.below(n); d = r.range(c + 1, n)
+        co = " ".join(dy(r.choice([Fraction(v) for v in (-3, -2, -1, 0, 1, 2, 3)] + [Fraction(1, 2), Fraction(-3, 4)])) for _ in range((b - a) * (d - c)))
+        ops.append(f"pderiv {a} {b} {c} {d} {co}")
+        ops.append(f"ideriv {a} {b} {c} {d} {co}")
+    a = r.below(n); b = r.range(a + 1, n); c = r.below(n); d = r.range(c + 1, n)
+    ops.append(f"dcheck {a} {b} {c} {d} " + " ".join(str(r.range(-2, 2)) for _ in range((b - a) * (d - c))))
+    return ops, dict(exact=exact, exact_case=exact, kinds={toks[0], "deriv"}, depth=0, n=n, dim=dim, parts=0, M=Fraction(1), f=0)
 
 
 def gen_discrete_case(r, all_partitions=False):
@@ -251,11 +289,16 @@ def classify(ops, res):
         crash = (m.group(1) or m.group(2)) if m else "crash"
     blockish = any(o in ("block", "gram", "mixed", "fdist") for o in opk)
     # stable keys of the two defects found while building this check (see findings_proposed/C05.md)
-    if "norm" in kinds and blockish and (crash or tag):
+    f4_tags = {"block-vs-single", "gram-vs-single", "asymmetric-block", "asymmetric-gram", "normalized-diag",
+               "feature-distance-batch", "block-shape", "negative-eigenvalue"}
+    if "norm" in kinds and blockish and (crash or tag in f4_tags):
         return "normalized-stateless-block", (f"NormalizedKernel stateless block evaluation disagrees with single evaluation "
                                              f"({tag or crash}) on ops {ops}")
-    if "disc" in kinds and blockish and (crash or tag):
+    if "disc" in kinds and blockish and (crash or tag in f4_tags):
         return "discrete-block-ignores-indices", (f"DiscreteKernel block evaluation ignores the batch contents ({tag or crash}) on ops {ops}")
+    if "mono" in kinds and tag == "input-derivative" and re.search(r"\bmono 1\b", ops[0]):
+        return "monomial-degree1-input-derivative", (f"MonomialKernel(1)::weightedInputDerivative is 0 where <x,z> = 0 "
+                                                    f"(finite differences disagree) on ops {ops}")
     if "prod" in kinds and "prod 0" in ops[0] and (crash or tag):
         return "empty-product-block", f"ProductKernel with no factors: block evaluation fails ({tag or crash}) on ops {ops}"
     if crash:
@@ -308,7 +351,8 @@ def run(ctx):
     if not exe or not drv:
         return
     r = ctx.rng.fork("c05")
-    ncases, ndisc, maxn = (220, 30, 7) if ctx.quick else (1500, 150, 10)
+    ncases, ndisc, maxn = (400, 40, 7) if ctx.quick else (2500, 200, 10)
+    nderiv = 80 if ctx.quick else 500
     cases = []       # (ops, info)
     for ops, mode in load_corpus():
         cases.append((ops, dict(exact_case=(mode == "exact"), kinds=set(kinds_of(ops)), depth=-1, n=0, dim=0, parts=0, corpus=True)))
@@ -317,6 +361,8 @@ def run(ctx):
         cases.append(gen_case(ctx, r, maxn))
     for _ in range(ndisc):
         cases.append(gen_discrete_case(r))
+    for _ in range(nderiv):
+        cases.append(gen_deriv_case(r, maxn))
     if not ctx.quick:
         # partition independence: ALL ordered batch partitions of n points (n <= 12)
         for n in (6, 8, 10, 12):
@@ -351,13 +397,17 @@ def run(ctx):
     env = {"OMP_NUM_THREADS": "2" if ctx.quick else "3", "OMP_WAIT_POLICY": "passive"}
     for inp in ("dense", "sparse"):
         sel = [(o, i) for o, i in cases if inp == "dense" or not (set(i["kinds"]) & SPARSE_UNSUPPORTED)]
+        if inp == "sparse":      # weightedInputDerivative needs a dense batch type
+            sel = [([x for x in o if not x.startswith("ideriv")], i) for o, i in sel]
         ctx.cov[f"cases_{inp}"] = len(sel)
         core.correspond(ctx, f"K-C05[{inp},float]", [o for o, _ in sel], [exe, inp], [drv, "float"], classify, keep_prefix=2, env=env)
         ex = [o for o, i in sel if i["exact_case"]]
         ctx.cov[f"cases_{inp}_exact"] = len(ex)
         core.correspond(ctx, f"K-C05[{inp},rat]", ex, [exe, inp], [drv, "rat"], classify, keep_prefix=2, env=env)
-    ctx.sample({"theorems": ["k_symm", "batch_eval_eq_single", "gram_assembly_correct", "gram_partition_independent",
-                             "normalized_diag_one", "featureDistance_def", "linear_psd", "psd closure lemmas"]})
+    ctx.sample({"theorems": ["k_symm", "batch_eval_eq_single", "batch_evalS_eq_single", "gram_assembly_correct",
+                             "gram_partition_independent", "normalized_diag_one", "isNormalized_diag_one", "featureDistance_def",
+                             "linear_psd", "kernel_psd", "gram_psd", "gauss_weightedParameterDerivative",
+                             "poly_weightedParameterDerivative", "gauss_weightedInputDerivative"]})
 
 
 def replay(ctx, rep):
